@@ -112,6 +112,12 @@ fn n_mbi_getters_many_tags() {
                         let want_rest: Vec<usize> = walk[j.min(walk.len())..].iter().map(|(o, _)| *o).collect();
                         assert_eq!(rest, want_rest, "iterator advanced by {j} continues the walk");
                         assert_eq!(rest_clone, want_rest, "clone taken after {j} steps continues the same walk");
+                        // provided Iterator methods agree with repeated next()
+                        let at = |t: Option<_>| t.map(|t: &_| t as *const _ as *const u8 as usize - base);
+                        assert_eq!(at(bi.tags().nth(j)), walk.get(j).map(|(o, _)| *o), "nth({j})");
+                        assert_eq!(at(bi.tags().skip(j).next()), walk.get(j).map(|(o, _)| *o), "skip({j}).next()");
+                        assert_eq!(bi.tags().count(), walk.len(), "count()");
+                        assert_eq!(at(bi.tags().last()), walk.last().map(|(o, _)| *o), "last()");
                     }
                     let bs_present = walk.iter().any(|(_, t)| *t == 18);
                     for &(t2, _) in KINDS.iter() {
